@@ -77,6 +77,10 @@ class RelativeJumpOpcode(OpcodeWithoutOperand):
             if physical_destination is None or resolver.reloc_address.physical is None:
                 raise RuntimeError("Jumping from ram is not supported.")
 
+            if (value >> 16) != (resolver.reloc_address.logical_value >> 16):
+                # the program counter wraps inside its bank, a branch never reaches another bank.
+                raise RuntimeError(f"Branch target 0x{value:06x} is not in the bank of the branch.")
+
             delta = physical_destination - pc
             delta -= 2
         else:
